@@ -394,17 +394,27 @@ def rule_accept_value(ck):
                 recv = dg.func.value
                 okr = (hobj is not None and q.dotted(recv) == hobj) or (len(sha_calls) == 1 and recv is sha_calls[0])
     ck.ob(R, cv, cv.node, okr, "the result is the base64 encoding of the binary digest", construct="b64(digest): %s" % okr)
-    # server side: header set from the request key
-    ch = ck.func(W, P13 + "._challenge_response")
-    cs = [c for c in q.calls(ch.node) if q.call_attr(c) == "compute_accept_value"]
-    ck.floor(R, len(cs), 1, "compute_accept_value call in _challenge_response")
-    for c in cs:
-        ck.ob(R, ch, c, len(c.args) == 1 and any(_hdr_get(x, "Sec-WebSocket-Key") for x in ast.walk(c.args[0])), "the server computes the accept value from the request's Sec-WebSocket-Key")
+    # server side: the Sec-WebSocket-Accept header is compute_accept_value(<request's Sec-WebSocket-Key>), computed in
+    # _accept_connection itself or in the helper it delegates to (_challenge_response)
     ac = ck.func(W, P13 + "._accept_connection")
     hp = [p for p in ac.params() if p != "self"][0]
     seth = [c for c in q.calls(ac.node) if q.is_call(c, hp + ".set_header") and c.args and isinstance(c.args[0], ast.Constant)]
     acc = [c for c in seth if c.args[0].value.lower() == "sec-websocket-accept"]
-    ck.ob(R, ac, ac.node, len(acc) == 1 and len(acc[0].args) == 2 and q.is_call(acc[0].args[1], "self._challenge_response"), "the 101 response carries Sec-WebSocket-Accept = _challenge_response(handler)", construct="accept header set: %d" % len(acc))
+    ck.ob(R, ac, ac.node, len(acc) == 1 and len(acc[0].args) == 2, "the 101 response carries exactly one Sec-WebSocket-Accept header", construct="accept header set: %d" % len(acc))
+    for a_ in acc:
+        if len(a_.args) != 2:
+            continue
+        v = _resolve_names(ac, a_.args[1])
+        where = ac
+        if q.is_call(v, "self._challenge_response") and ck.repo.has_func(W, P13 + "._challenge_response"):
+            where = ck.func(W, P13 + "._challenge_response")
+            cs = [c for c in q.calls(where.node) if q.call_attr(c) == "compute_accept_value"]
+        else:
+            cs = [c for c in ast.walk(v) if isinstance(c, ast.Call) and q.call_attr(c) == "compute_accept_value"]
+        if not cs:
+            raise AnalysisError("_accept_connection: the value of the Sec-WebSocket-Accept header (%s) is not a recognised call of compute_accept_value" % q.unparse(a_.args[1])[:60])
+        for c in cs:
+            ck.ob(R, where, c, len(c.args) == 1 and any(_hdr_get(x, "Sec-WebSocket-Key") for x in ast.walk(c.args[0])), "the server computes the accept value from the request's Sec-WebSocket-Key")
     st101 = [c for c in q.calls(ac.node) if q.is_call(c, hp + ".set_status") and c.args and q.is_const(c.args[0], 101)]
     ck.ob(R, ac, ac.node, len(st101) == 1, "the handshake is completed with status 101", construct="status 101: %d" % len(st101))
     hv = {c.args[0].value.lower(): c.args[1] for c in seth if len(c.args) == 2}
@@ -585,6 +595,17 @@ def rule_origin(ck):
         ck.ob(R, co, co.node, not got, "default check_origin(%r) with Host %r -> %s (host and port of the Origin must equal the Host header)" % (origin, host, want), construct="origin %s vs host %s -> want %s" % (origin, host, want))
 
 
+def _gate_recognised(fi, tests, name_t, comp_t):
+    """No recognised gate is positive evidence only when the function does not test the thing at all; a test in a
+    form the analysis cannot read is an analysis error, not a violation."""
+    conds = [t.ast for t in tests] + [c for x in q.walk_body(fi.node) if isinstance(x, (ast.GeneratorExp, ast.ListComp)) for g in x.generators for c in g.ifs] \
+        + [x.test for x in q.walk_body(fi.node) if isinstance(x, ast.IfExp)]
+    if not name_t and any(q.is_const(y, "permessage-deflate") for c in conds for y in ast.walk(c)):
+        raise AnalysisError("%s: the test on the extension name is in a form the analysis does not read" % fi.qualname)
+    if not comp_t and any(isinstance(y, ast.Attribute) and y.attr == "_compression_options" for c in conds for y in ast.walk(c)):
+        raise AnalysisError("%s: the test on compression being enabled/offered is in a form the analysis does not read" % fi.qualname)
+
+
 def rule_extensions(ck):
     R = "C17.extensions"
     ac = ck.func(W, P13 + "._accept_connection")
@@ -592,8 +613,18 @@ def rule_extensions(ck):
     cfg = ac.cfg
     tests = cfg.stmt_nodes(lambda n: n.kind == "test")
 
-    def gate_edges(fi_tests):
+    def gate_edges(fi_tests, fnode=None):
         name_t = []
+        # `ext = next((e for e in offered if e[0] == "permessage-deflate"), None)`: `ext is not None` is the name test
+        if fnode is not None:
+            for x in q.walk_body(fnode):
+                if isinstance(x, ast.Assign) and len(x.targets) == 1 and isinstance(x.targets[0], ast.Name) and q.is_call(x.value, "next") and len(x.value.args) == 2 \
+                        and isinstance(x.value.args[0], ast.GeneratorExp) and isinstance(x.value.args[1], ast.Constant) and x.value.args[1].value is None:
+                    g_ = x.value.args[0]
+                    if len(g_.generators) == 1 and isinstance(g_.elt, ast.Name) and isinstance(g_.generators[0].target, ast.Name) and g_.elt.id == g_.generators[0].target.id and len(g_.generators[0].ifs) == 1:
+                        c_ = g_.generators[0].ifs[0]
+                        if isinstance(c_, ast.Compare) and len(c_.ops) == 1 and isinstance(c_.ops[0], ast.Eq) and any(q.is_const(y, "permessage-deflate") for y in (c_.left, c_.comparators[0])):
+                            name_t += _edges_where(fi_tests, "%s is None" % x.targets[0].id, False) + _edges_where(fi_tests, x.targets[0].id, True)
         for t in fi_tests:
             ct, cp = canon_fact(t.ast, True)
             try:
@@ -605,7 +636,8 @@ def rule_extensions(ck):
         comp_t = _edges_where(fi_tests, "self._compression_options is None", False) + _edges_where(fi_tests, "self._compression_options", True)
         return name_t, comp_t
 
-    name_t, comp_t = gate_edges(tests)
+    name_t, comp_t = gate_edges(tests, ac.node)
+    _gate_recognised(ac, tests, name_t, comp_t)
     targets = cfg.find(lambda x: (q.is_call(x, hp + ".set_header") and x.args and isinstance(x.args[0], ast.Constant) and str(x.args[0].value).lower() == "sec-websocket-extensions") or q.is_call(x, "self._create_compressors"))
     ck.floor(R, len(targets), 2, "extension response / compressor creation sites in _accept_connection")
     for node, c in targets:
@@ -651,7 +683,8 @@ def rule_extensions(ck):
     ps = ck.func(W, P13 + "._process_server_headers")
     pcfg = ps.cfg
     ptests = pcfg.stmt_nodes(lambda n: n.kind == "test")
-    name_t, comp_t = gate_edges(ptests)
+    name_t, comp_t = gate_edges(ptests, ps.node)
+    _gate_recognised(ps, ptests, name_t, comp_t)
     crs = pcfg.find(lambda x: q.is_call(x, "self._create_compressors"))
     ck.floor(R, len(crs), 1, "compressor creation in _process_server_headers")
     for node, c in crs:
